@@ -273,8 +273,8 @@ def _parents(node, stop):
 
 
 def r_enum(ctx):
-    from .common import enum_identity
-    enum_identity(ctx, "C11.R5", ('server', 'twisted', 'connection', 'context'))
+    from .common import repo_idioms
+    repo_idioms(ctx, "C11.R5", ('server', 'twisted', 'connection', 'context'))
 
 
 RULES = [("C11.R1", r1), ("C11.R2", r2), ("C11.R3", r3), ("C11.R4", r4), ("C11.R5", r_enum)]
